@@ -92,7 +92,7 @@ class Gen:
                 allowed.remove("cancel_task")
 
             if in_start and not started_done and rng.random() < 0.5:
-                ops.append(["started", rng.randint(0, 9)])
+                ops.append(["started", rng.choice([None, 0, 1, 2, 3, 4, 5, 6, 7, 8, 9])])
                 started_done = True
                 if rng.random() < 0.12:
                     ops.append(["cp", rng.randint(0, 1)])
